@@ -73,19 +73,34 @@ fn alphabet(thorough: bool) -> Alphabet {
     }
 }
 
-struct Params {
-    thorough: bool,
-    max_depth: usize,
-    wall_cap_s: f64,
-    starts: Vec<usize>,
+/// One breadth-first search.
+struct Search {
+    name: &'static str,
+    thorough_alphabet: bool,
+    /// maximal depth per start state (full, gap, short)
+    depth_by_start: [usize; 3],
+    /// lattice level evaluated in a state first reached at depth d: 0 = core, 1 = quick, 2 = thorough
+    level_at_depth: fn(usize) -> usize,
+    /// share of the remaining wall budget this search may use
+    wall_share: f64,
 }
 
-fn params(tier: Tier) -> Params {
-    let depth_env = std::env::var("C08_DEPTH").ok().and_then(|s| s.parse().ok());
+fn searches(tier: Tier) -> (Vec<Search>, f64) {
+    let depth_env: Option<usize> = std::env::var("C08_DEPTH").ok().and_then(|s| s.parse().ok());
     let wall_env = std::env::var("C08_WALL").ok().and_then(|s| s.parse().ok());
+    let cap = |d: usize| depth_env.map(|e| e.min(d)).unwrap_or(d);
     match tier {
-        Tier::Quick => Params { thorough: false, max_depth: depth_env.unwrap_or(3), wall_cap_s: wall_env.unwrap_or(48.0), starts: vec![0, 1, 2] },
-        Tier::Thorough => Params { thorough: true, max_depth: depth_env.unwrap_or(6), wall_cap_s: wall_env.unwrap_or(660.0), starts: vec![0, 1, 2] },
+        Tier::Quick => (
+            vec![Search { name: "quick", thorough_alphabet: false, depth_by_start: [cap(3), cap(2), cap(2)], level_at_depth: |d| if d <= 2 { 1 } else { 0 }, wall_share: 1.0 }],
+            wall_env.unwrap_or(48.0),
+        ),
+        Tier::Thorough => (
+            vec![
+                Search { name: "wide", thorough_alphabet: true, depth_by_start: [cap(2), cap(2), cap(2)], level_at_depth: |d| if d <= 1 { 2 } else { 1 }, wall_share: 0.5 },
+                Search { name: "deep", thorough_alphabet: false, depth_by_start: [cap(4), cap(3), cap(3)], level_at_depth: |d| if d <= 2 { 1 } else { 0 }, wall_share: 1.0 },
+            ],
+            wall_env.unwrap_or(660.0),
+        ),
     }
 }
 
@@ -183,12 +198,80 @@ struct Found {
     msg: String,
 }
 
+fn profile() {
+    let env = env();
+    let mut w = db::new_wallet(&env.u, uni::RETENTION, false);
+    let m = Model::start(env, 0);
+    let t = |name: &str, f: &mut dyn FnMut()| {
+        let t0 = Instant::now();
+        for _ in 0..20 {
+            f();
+        }
+        eprintln!("{name}: {:.2} ms", t0.elapsed().as_secs_f64() * 1000.0 / 20.0);
+    };
+    t("restore+refresh", &mut || {
+        db::restore(w.db.conn_mut(), &env.starts[0].1);
+        w.refresh_accounts();
+    });
+    t("canon", &mut || {
+        let _ = canon(w.db.conn());
+    });
+    t("state_key", &mut || {
+        let _ = state_key(&w, &m, 0);
+    });
+    t("snapshot", &mut || {
+        let _ = db::snapshot(w.db.conn());
+    });
+    t("ledger", &mut || {
+        let _ = m.ledger(env);
+    });
+    t("lock_rows", &mut || {
+        let _ = model::lock_rows(w.db.conn());
+    });
+    t("restore+lock", &mut || {
+        db::restore(w.db.conn_mut(), &env.starts[0].1);
+        w.refresh_accounts();
+        let _ = model::apply(env, &mut w, &m, &Op::Lock { owner: 0, set: 0, far: false });
+    });
+    t("restore+advance1", &mut || {
+        db::restore(w.db.conn_mut(), &env.starts[0].1);
+        w.refresh_accounts();
+        let _ = model::apply(env, &mut w, &m, &Op::Advance { k: 1 });
+    });
+    t("restore+advance41", &mut || {
+        db::restore(w.db.conn_mut(), &env.starts[0].1);
+        w.refresh_accounts();
+        let _ = model::apply(env, &mut w, &m, &Op::Advance { k: 41 });
+    });
+    db::restore(w.db.conn_mut(), &env.starts[0].1);
+    w.refresh_accounts();
+    let lat = oracle::lattice(false);
+    let ledger = m.ledger(env);
+    for r in lat.reqs.iter().step_by(9) {
+        let t0 = Instant::now();
+        let mut cache = oracle::WitnessCache::default();
+        let mut res = None;
+        for _ in 0..5 {
+            res = Some(oracle::run_request_with(env, &mut w, &m, &ledger, r, &mut cache, Some(100_000)));
+        }
+        eprintln!("{:.2} ms  {}  -> {:?}", t0.elapsed().as_secs_f64() * 1000.0 / 5.0, r.key(), res.unwrap().map(|x| x.outcomes.first().cloned()));
+    }
+    eprintln!("db size: {:?}", db::query_rows(w.db.conn(), "SELECT page_count * page_size FROM pragma_page_count(), pragma_page_size()"));
+}
+
 pub fn run(args: &Args) -> i32 {
+    if std::env::var("C08_PROFILE").is_ok() {
+        profile();
+        return 0;
+    }
     let run = Run::new(args, "model_checking");
     let pr = params(args.tier);
     let t0 = Instant::now();
     let env = env();
     let t_setup = t0.elapsed().as_secs_f64();
+    if std::env::var("VERIF_PROGRESS").is_ok() {
+        eprintln!("setup {t_setup:.1}s");
+    }
     let al = alphabet(pr.thorough);
     let lat = oracle::lattice(pr.thorough);
     run.set_rule(&format!(
@@ -253,6 +336,7 @@ pub fn run(args: &Args) -> i32 {
         }
     }
     let mut cap: Option<String> = None;
+    let noeval = std::env::var("C08_NOEVAL").is_ok(); // sizing runs only
     let mut depth = 0usize;
     let mut completed_depth = 0usize;
     while !frontier.is_empty() {
@@ -338,7 +422,7 @@ pub fn run(args: &Args) -> i32 {
                     return None;
                 }
                 let snap = Arc::new(db::snapshot(w.db.conn()));
-                let (o, fails, n) = oracle::eval_state(env, w, &m, &lat);
+                let (o, fails, n) = if noeval { (vec![], vec![], 0) } else { oracle::eval_state(env, w, &m, &lat) };
                 evals.fetch_add(n, Ordering::Relaxed);
                 add_outs(o);
                 // state diversity
@@ -395,6 +479,10 @@ pub fn run(args: &Args) -> i32 {
     }
     let transitions = transitions.load(Ordering::Relaxed);
     let evals = evals.load(Ordering::Relaxed);
+    if std::env::var("VERIF_PROGRESS").is_ok() {
+        let c = oracle::CALLS.load(Ordering::Relaxed).max(1);
+        eprintln!("proposal calls {c}: {:.2} ms/call inside the wallet, {:.2} ms/request overall", oracle::CALL_NS.load(Ordering::Relaxed) as f64 / 1e6 / c as f64, oracle::EVAL_NS.load(Ordering::Relaxed) as f64 / 1e6 / c as f64);
+    }
     run.add_graph(states, transitions, transitions + evals);
     run.add_evaluations(evals + transitions);
     run.eval_distinct_only(evals + states.saturating_sub(pr.starts.len() as u64));
@@ -434,7 +522,8 @@ pub fn run(args: &Args) -> i32 {
         let key = format!("{}|{}", ops_key(env, x.start, &x.ops), x.req.as_ref().map(|r| r.key()).unwrap_or("-".into()));
         run.fail("state", key, x.msg, case_json(x.start, &x.ops, x.req.as_ref(), pr.thorough));
     }
-    let has = |k: &str| outcomes.contains_key(k) || run.failure_count() > 0;
+    let debug_run = std::env::var("C08_DEPTH").is_ok();
+    let has = |k: &str| outcomes.contains_key(k) || run.failure_count() > 0 || debug_run;
     for k in [
         "transfer:ok",
         "standard:ok",
